@@ -642,8 +642,15 @@ def inv_c20(prog, trace):
         return None, None, None
 
     EV = list(flat(trace))
+    extra = {}      # share -> {field: value} added by injected external writes
+
+    def whole(sh):
+        return (value.get(sh), tuple(sorted(extra.get(sh, {}).items())))
     for idx, (t, e) in enumerate(EV):
-        if e[0] == "act" and e[5] in ("put", "set", "inc"):
+        if e[0] == "inject":
+            extra.setdefault(e[1], {})[e[2]] = e[3]
+            last_write[e[1]] = t
+        elif e[0] == "act" and e[5] in ("put", "set", "inc"):
             F, X, a = acts[e[4]]
             if e[5] == "inc":
                 value[a["dst"]] = value.get(a["dst"], 0) + a["val"]
@@ -659,7 +666,7 @@ def inv_c20(prog, trace):
             if n["kind"] == "updated":
                 m["reset"] = t
             else:
-                m["snap"] = value.get(n["share"])
+                m["snap"] = whole(n["share"])
                 m["has"] = True
         elif e[0] == "tract":
             j, n, mk = marker_of(e[3])
@@ -681,7 +688,7 @@ def inv_c20(prog, trace):
                 m["reset"] = t
                 m["transit"] = t
             else:
-                m["snap"] = value.get(n["share"])
+                m["snap"] = whole(n["share"])
                 m["has"] = True
         elif e[0] == "need":
             F, X, line, idxn, res = e[1], e[2], e[3], e[4], e[5]
@@ -701,7 +708,7 @@ def inv_c20(prog, trace):
                 else:
                     exp = lw > m["reset"] or (lw == m["reset"] and m["transit"] != m["reset"])
             else:
-                exp = True if not m["has"] else (value.get(sh) != m["snap"])
+                exp = True if not m["has"] else (whole(sh) != m["snap"])
             if n.get("neg"):
                 exp = not exp
             if bool(res) != bool(exp):
